@@ -276,6 +276,9 @@ class ExecutionState:
         # Contexts whose completion (SUCCEED/FAIL) has been handed over
         self._completed_contexts: set[str] = set()
 
+        # operation_id -> parent_id for operations checkpointed in this invocation
+        self._child_to_parent: dict[str, str] = {}
+
         # Protects parent_to_children and parent_done
         self._parent_done_lock: Lock = Lock()
         self._replay_status: ReplayStatus = replay_status
@@ -471,6 +474,9 @@ class ExecutionState:
                     self._parent_to_children[operation_update.parent_id].add(
                         operation_update.operation_id
                     )
+                    self._child_to_parent[operation_update.operation_id] = (
+                        operation_update.parent_id
+                    )
 
                 # Handle CONTEXT completion - mark descendants while holding lock
                 if (
@@ -484,8 +490,7 @@ class ExecutionState:
                 # time is not marked yet, so also look at the context it is created under.
                 if (
                     operation_update.operation_id in self._parent_done
-                    or operation_update.parent_id in self._parent_done
-                    or operation_update.parent_id in self._completed_contexts
+                    or self._has_completed_ancestor(operation_update.parent_id)
                 ):
                     logger.debug(
                         "Rejecting checkpoint for operation %s - parent is done",
@@ -568,6 +573,26 @@ class ExecutionState:
             self.stop_checkpointing()
             # Raise the original exception unwrapped
             raise bg_error.source_exception from bg_error
+
+    def _has_completed_ancestor(self, parent_id: str | None) -> bool:
+        """True if parent_id or one of its ancestors is a context whose completion was handed over.
+
+        Follows the parent links of operations checkpointed in this invocation and of operations that
+        are only known from the history of earlier invocations. Must be called while holding
+        _parent_done_lock.
+        """
+        seen: set[str] = set()
+        while parent_id and parent_id not in seen:
+            seen.add(parent_id)
+            if parent_id in self._completed_contexts or parent_id in self._parent_done:
+                return True
+            next_id = self._child_to_parent.get(parent_id)
+            if next_id is None:
+                with self._operations_lock:
+                    known = self.operations.get(parent_id)
+                next_id = known.parent_id if known else None
+            parent_id = next_id
+        return False
 
     def _mark_orphans(self, context_id: str) -> None:
         """Mark all descendants (direct and transitive) as orphaned.
